@@ -213,6 +213,8 @@ def generate(st):
     last_target = None
     while len(ops) < cfg['n_ops']:
         r = f.random() if cfg['faulty'] else 1.0
+        if cfg['faulty'] and g.random() < 0.12:
+            ops.append({'op': 'clock', 's': g.choice([-86400 * 3, -2, 0, 5, 3600, 86400 * 40])})
         if r < cfg['p_rereg'] * 0.25:
             # fault: a registration that fails half-way (unparseable range); the key must keep its previous calendar
             key = g.choice(keys)
@@ -254,6 +256,8 @@ def execute(trace, ctx=None):
     from pyg_base import calendar, Calendar
     import pyg_base._drange as R
     res = Result()
+    from sim.seams import SimClock
+    SimClock.reset(datetime.datetime(2022, 5, 17, 11, 30))
     R.calendars.clear()
     refs = {}        # target -> Ref of the configuration last registered
     slots = {}
@@ -271,6 +275,11 @@ def execute(trace, ctx=None):
         for k, op in enumerate(trace['ops']):
             state['step'] = k
             kind = op['op']
+            if kind == 'clock':
+                from sim.seams import SimClock
+                SimClock.advance(datetime.timedelta(seconds=op['s']))
+                res.fault('clock_jump_back' if op['s'] < 0 else 'clock_jump_fwd' if op['s'] > 3600 else 'clock_tick')
+                continue
             if kind == 'register_bad':
                 hol = [_d(h) for h in op['hol']]
                 kw = {'t0': None, 't1': None}
@@ -476,6 +485,7 @@ def execute(trace, ctx=None):
     except Violation as v:
         res.violation = {'cls': v.cls, 'msg': v.msg, 'step': v.step}
     res.obs = [res.stats.get('queries', 0), sorted(res.probes), res.violation and res.violation['cls']]
+    res.sim_time = abs(SimClock.elapsed())
     res.nontrivial = res.stats.get('queries', 0) >= 3 and (not trace['cfg']['faulty'] or bool(res.faults))
     return res
 
